@@ -22,12 +22,15 @@ from common import rng_for, VERIF
 from draws import Draws
 
 RULE = ("compute_gamma configurations from VERIF_SEED (continua 2..4 annotators, mode exact / fast / soft, sampler statistical / shuffle, n_samples 3..6, "
-        "precision None or 0.15 - small enough to force a second batch of samples) x 8 schedules (forced FIFO-now, FIFO, LIFO, 2 random permutations, delayed first job; real pools of 1, 2, 16 workers) "
+        "precision None or 0.15 - small enough to force a second batch of samples; plus fast-mode runs on continua of 4..5 annotators x 10..14 units, "
+        "large enough for the windowed route) x 11 schedules (forced FIFO-now, FIFO, LIFO, 2 random permutations, delayed first job; real pools of 1, 2, 7, 16 "
+        "workers on a machine reporting as many processors, 16 twice); attribute writes to the input continuum from worker threads are recorded "
         "+ repetition + subprocesses with PYTHONHASHSEED in {1, 2, random}; non-trivial = the result has >= 3 chance alignments and a gamma < 1; "
         "distinct by (configuration, schedule)")
 TRUSTED_BASE = ["Coq 8.16.1 kernel (theorems of props/C06.v)", "harness/{common,gen,draws,c06}.py: the recording executor substituted for "
                 "pygamma_agreement.continuum.ThreadPoolExecutor", "CPython's GIL semantics for the recording itself"]
-ASSUMPTIONS = ["jobs are pure functions of (dissimilarity, continuum): checked by snapshots, not proved of the Python code",
+ASSUMPTIONS = ["jobs are pure functions of (dissimilarity, continuum): checked by snapshots and by tracing attribute writes from worker threads, pinned as source "
+               "text by C06_src_jobs_write_nothing, not proved of the Python code",
                "races inside native code running without the GIL cannot be exhibited by the model"]
 
 
